@@ -137,7 +137,9 @@ static void schedule(int kind,const char*op,const void*a){
 extern "C" int vf_is_active(){ return active&&me>=0&&!inproc; }
 extern "C" int vf_self(){ return (active&&me>=0)?me:-1; }
 extern "C" int vf_nthreads(){ return nth; }
-extern "C" void vf_point_rw(const void*a,int w,const char*op){ if(!active||me<0||inproc) return; schedule(0,op,a); fp_event(a,w); }
+extern "C" void vf_ip_fail(const char*b);
+static unsigned long ip_horizon=30000000ul;
+extern "C" void vf_point_rw(const void*a,int w,const char*op){ if(inproc){ if(active && ++steps>ip_horizon){ steps=0; vf_ip_fail("hang: the execution performed more than 30000000 atomic operations without finishing (a thread spins on a condition that never becomes true)"); } return; } if(!active||me<0) return; schedule(0,op,a); fp_event(a,w); }
 extern "C" void vf_point_local(const char*op){ if(!active||me<0||inproc) return; schedule(0,op,0); hthr[me]=mix(hthr[me],0x77); }
 extern "C" void vf_fp_local(uint64_t x){ if(!active||me<0) return; hthr[me]=mix(hthr[me],x^0x5151); }
 extern "C" void vf_fp_event(const void*a,int w){ if(!active||me<0) return; fp_event(a,w); }
@@ -194,6 +196,12 @@ extern "C" int pthread_join(pthread_t pt,void**ret){
   if(active&&me>=0){ int tgt=-1; for(int t=0;t<nth;t++) if(t!=me && th[t].st!=ST_FREE && pthread_equal(th[t].pt,pt)) tgt=t; if(tgt>=0){ vf_join(tgt); if(ret)*ret=0; return 0; } }
   return real(pt,ret); }
 extern "C" int pthread_detach(pthread_t pt){ static int(*real)(pthread_t)=0; if(!real) real=(int(*)(pthread_t))dlsym(RTLD_NEXT,"pthread_detach"); if(active&&me>=0) return 0; return real(pt); }
+// The code under test sees a fixed machine: 16 CPUs, whatever the real CPU count or the affinity mask of this process is (every
+// execution is pinned to one CPU, see the zygotes in vf_main).  oneTBB derives its default concurrency from these two calls.
+#define VF_NCPU 16
+extern "C" int sched_getaffinity(pid_t pid,size_t sz,cpu_set_t*m){ if(active){ memset(m,0,sz); for(size_t i=0;i<VF_NCPU&&i<sz*8;i++) CPU_SET_S(i,sz,m); return 0; }
+  long r; __asm__ volatile("syscall":"=a"(r):"a"((long)SYS_sched_getaffinity),"D"((long)pid),"S"((long)sz),"d"(m):"rcx","r11","memory"); if(r<0){ errno=(int)-r; return -1; } if((size_t)r<sz) memset((char*)m+r,0,sz-r); return 0; }
+extern "C" long sysconf(int name){ static long(*real)(int)=0; if(!real) real=(long(*)(int))dlsym(RTLD_NEXT,"sysconf"); if(active&&(name==_SC_NPROCESSORS_ONLN||name==_SC_NPROCESSORS_CONF)) return VF_NCPU; return real(name); }
 extern "C" int sched_yield(){ if(active&&me>=0){ vf_yield(); return 0; } return 0; }
 extern "C" int nanosleep(const struct timespec*rq,struct timespec*rm){ (void)rq;(void)rm; if(active&&me>=0){ vf_yield(); return 0; } return 0; }
 extern "C" int usleep(useconds_t us){ (void)us; if(active&&me>=0){ vf_yield(); } return 0; }
